@@ -20,7 +20,7 @@ def main():
         results_path = args[args.index('--results') + 1]
     if '--tier' in args:
         tier = args[args.index('--tier') + 1]
-    dirs = [a for a in args if not a.startswith('--') and a != tier and a != results_path] or sorted(glob.glob('/verif/seeded/*/'))
+    dirs = [a for a in args if not a.startswith('--') and a != tier and a != results_path and a != "-v"] or sorted(glob.glob('/verif/seeded/*/'))
     results = []
     for d in dirs:
         d = os.path.abspath(d.rstrip('/'))
